@@ -1,8 +1,273 @@
-"""C05: PSBT map layer, p2p envelope, BIP32 key data — implementation side and streams."""
+"""C05: PSBT map layer, p2p envelope, BIP32 key data — implementation side, oracles and streams."""
 from __future__ import annotations
 
-OPS = {}
+import base64
+import os
+import re
+from io import BytesIO
+
+from btclib import var_bytes
+from btclib.psbt import Psbt, PsbtIn
+from btclib.psbt.psbt_utils import deserialize_map
+
+from . import common
+from .common import hx
+
+
+def _kind(e):
+    from . import c05
+    return c05.kind_of(e)
+
+
+# ------------------------------------------------------------------ PSBT map layer
+def ser_records(recs):
+    return b"".join(var_bytes.serialize(k) + var_bytes.serialize(v) for k, v in recs) + b"\x00"
+
+
+def psbtmap_parse(mode: str, b: bytes) -> str:
+    s = BytesIO(b)
+    try:
+        m = deserialize_map(s)
+    except Exception as e:  # noqa: BLE001
+        return "err " + _kind(e)
+    rest = s.read()
+    if mode == "o" and rest:
+        return "err trailing"
+    recs = list(m.items())
+    return f"ok [{';'.join(hx(k) + '=' + hx(v) for k, v in recs)}] rest={hx(rest)} ser={hx(ser_records(recs))}"
+
+
+def psbtin_reserialize(b: bytes):
+    """`PsbtIn.parse(b).serialize()` under the first psbt version that reads it; None when refused."""
+    last = None
+    for v in (0, 2):
+        try:
+            return PsbtIn.parse(b, psbt_version=v, check_validity=False).serialize(psbt_version=v, check_validity=False), v
+        except Exception as e:  # noqa: BLE001
+            last = e
+    return None, last
+
+
+def psbtmap_norm(mode: str, b: bytes) -> str:
+    out, v = psbtin_reserialize(b)
+    if out is None:
+        return "err " + _kind(v)
+    return f"ok {hx(out)} rest=_"
+
+
+OPS = {"psbtmap.parse": psbtmap_parse, "psbtmap.norm": psbtmap_norm}
+
+
+def records_of(b: bytes):
+    return sorted(deserialize_map(BytesIO(b)).items())
+
+
+def classify_dropped(missing, b):
+    """stable key for a set of records that `PsbtIn.parse(b).serialize()` did not write back"""
+    recs = dict(deserialize_map(BytesIO(b)))
+    finalized = any(k[:1] in (b"\x07", b"\x08") for k in recs)
+    keys = set()
+    for k, v in missing:
+        if k[:1] == b"\x08" and v == b"\x00":
+            keys.add("PsbtIn.empty_final_witness.dropped")
+        elif len(v) == 0:
+            keys.add("PsbtIn.empty_value.dropped")
+        elif finalized and k[:1] not in (b"\x07", b"\x08"):
+            keys.add("PsbtIn.finalized.dropped")
+        elif k == b"\x03" and v == b"\x00" * 4:
+            keys.add("psbt.sighash0.dropped")
+        else:
+            keys.add("PsbtIn.record.dropped." + k[:1].hex())
+    return sorted(keys)
+
+
+def _o_psbtin_keeps_pairs(w):
+    """T5 on the real code: re-serializing a parsed input map keeps every key-value pair and is a
+    fixed point after one round."""
+    b = bytes.fromhex(w["b"])
+    out, v = psbtin_reserialize(b)
+    if out is None:
+        ok = common.err_class(v) in ("value", "runtime", "type") if isinstance(v, Exception) else True
+        return ok, f"refused: {type(v).__name__}: {str(v)[:80]}"
+    try:
+        before, after = records_of(b), records_of(out)
+    except Exception as e:  # noqa: BLE001
+        return False, f"re-serialization does not read back: {type(e).__name__}: {e}"
+    missing = [r for r in before if r not in after]
+    added = [r for r in after if r not in before]
+    if missing or added:
+        return False, (f"records dropped {[(k.hex(), x.hex()) for k, x in missing]} added "
+                       f"{[(k.hex(), x.hex()) for k, x in added]} ({len(b)} -> {len(out)} bytes)")
+    again, _ = psbtin_reserialize(out)
+    return again == out, "fixed point" if again == out else "second round differs"
+
+
+ORACLES = {"psbtin.keeps_pairs": _o_psbtin_keeps_pairs}
+
+
+# ------------------------------------------------------------------ seeds
+_PSBTS = None
+
+
+def vendored_psbts():
+    global _PSBTS
+    if _PSBTS is not None:
+        return _PSBTS
+    cands = set()
+    for d, _, fs in os.walk("/repo/tests"):
+        for f in sorted(fs):
+            p = os.path.join(d, f)
+            if not f.endswith((".py", ".json", ".txt", ".psbt")) or os.path.getsize(p) > 3_000_000:
+                continue
+            try:
+                txt = open(p, encoding="utf8", errors="ignore").read()
+            except OSError:
+                continue
+            for m in re.finditer(r"cHNidP[0-9A-Za-z+/=]+", txt):
+                try:
+                    cands.add(base64.b64decode(m.group(0), validate=True))
+                except Exception:  # noqa: BLE001
+                    pass
+            for m in re.finditer(r"70736274ff(?:[0-9a-fA-F]{2})+", txt):
+                cands.add(bytes.fromhex(m.group(0)))
+    out = []
+    for b in sorted(cands, key=lambda x: (len(x), x)):
+        try:
+            p = Psbt.parse(b, check_validity=False)
+        except Exception:  # noqa: BLE001
+            continue
+        out.append((b, len(p.inputs), len(p.outputs)))
+    _PSBTS = out
+    return out
+
+
+def split_maps(b: bytes):
+    """raw bytes of the consecutive maps of a psbt (after the 5-byte magic)"""
+    s = BytesIO(b)
+    s.read(5)
+    maps = []
+    while s.tell() < len(b):
+        at = s.tell()
+        deserialize_map(s)
+        maps.append(b[at:s.tell()])
+    return maps
+
+
+SIGHASHES = [0, 1, 2, 3, 0x81, 0x82, 0x83]
+
+
+def gen_records(rng):
+    """a plausible input map as a record list (typed layer accepts most of them)"""
+    recs = []
+    if rng.random() < 0.5:
+        recs.append((b"\x03", rng.choice(SIGHASHES).to_bytes(4, "little")))
+    for t in (b"\x04", b"\x05"):
+        if rng.random() < 0.4:
+            recs.append((t, common.rand_bytes(rng, rng.choice([0, 1, 22, 34, 253]))))
+    if rng.random() < 0.2:
+        recs.append((b"\x07", common.rand_bytes(rng, rng.choice([0, 1, 72]))))
+    for _ in range(rng.choice([0, 0, 1, 2, 3])):
+        recs.append((b"\x0a" + common.rand_bytes(rng, 20), common.rand_bytes(rng, rng.randrange(0, 40))))
+    for _ in range(rng.choice([0, 0, 1, 2])):
+        recs.append((b"\x0b" + common.rand_bytes(rng, 32), common.rand_bytes(rng, rng.randrange(0, 40))))
+    for _ in range(rng.choice([0, 1, 1, 2, 3])):  # unknown types, some proprietary-looking
+        t = rng.choice([0x09, 0x19, 0x1f, 0x20, 0x7f, 0xfb, 0xfc, 0xfd, 0xff])
+        recs.append((bytes([t]) + common.rand_bytes(rng, rng.randrange(0, 5)), common.rand_bytes(rng, rng.randrange(0, 6))))
+    if rng.random() < 0.15:
+        recs.append((b"\x13", common.rand_bytes(rng, 64)))
+    if rng.random() < 0.15:
+        recs.append((b"\x17", common.rand_bytes(rng, 32)))
+    seen, out = set(), []
+    for k, v in recs:
+        if k not in seen:
+            seen.add(k)
+            out.append((k, v))
+    rng.shuffle(out)
+    return out
+
+
+def mutate_map(recs, rng) -> bytes:
+    b = ser_records(recs)
+    r = rng.random()
+    if r < 0.2 and recs:  # duplicate a key (same or different value)
+        k, v = rng.choice(recs)
+        extra = var_bytes.serialize(k) + var_bytes.serialize(rng.choice([v, v + b"\x01"]))
+        return b[:-1] + extra + b"\x00"
+    if r < 0.35:  # unterminated / truncated
+        return b[:rng.randrange(len(b))]
+    if r < 0.45:  # empty key in the middle == early terminator
+        k = rng.randrange(len(recs) + 1)
+        return ser_records(recs[:k])[:-1] + b"\x00" + ser_records(recs[k:])
+    if r < 0.6 and recs:  # non-minimal key length
+        k, v = recs[0]
+        return b"\xfd" + len(k).to_bytes(2, "little") + k + var_bytes.serialize(v) + ser_records(recs[1:])
+    if r < 0.75 and b:
+        k = rng.randrange(len(b))
+        return b[:k] + bytes([rng.choice([0, 1, 0xFC, 0xFD, 0xFF, b[k] ^ 1])]) + b[k + 1:]
+    return b + common.rand_bytes(rng, rng.randrange(1, 4))
 
 
 def run(ctx):
-    return
+    rng = ctx.rng
+    # ---- map layer: deserialize_map against the model
+    lines = []
+    maps_in = []
+    for b, n_in, _n_out in vendored_psbts():
+        try:
+            maps = split_maps(b)
+        except Exception:  # noqa: BLE001
+            continue
+        for m in maps:
+            lines.append(f"psbtmap.parse o {hx(m)}")
+            ctx.count("c05.input_class", "psbtmap:vendored")
+        maps_in += maps[1:1 + n_in]
+    for _ in range(ctx.n(600, 8000)):
+        recs = gen_records(rng)
+        r = rng.random()
+        if r < 0.45:
+            b, cls = ser_records(recs), "valid"
+            if rng.random() < 0.3:
+                maps_in.append(b)
+        elif r < 0.55:
+            b, cls = ser_records(recs) + common.rand_bytes(rng, rng.randrange(1, 4)), "valid+rest"
+        else:
+            b, cls = mutate_map(recs, rng), "mutated"
+        lines.append(f"psbtmap.parse {rng.choice('so')} {hx(b)}")
+        ctx.count("c05.input_class", "psbtmap:" + cls)
+    lines.append("psbtmap.parse o _")
+    lines.append("psbtmap.parse o 010301ff")  # a record, then the end of the data: unterminated
+    ctx.stream("psbtmap.parse", lines)
+
+    # ---- typed layer on input maps: every pair kept (oracle), then the order (stream vs model norm)
+    # explicit constructions of the falsy-but-present values
+    base = [m for m in maps_in if b"\x01\x03\x04" not in m][:ctx.n(40, 400)]
+    crafted = []
+    for m in base:
+        crafted.append(b"\x01\x03\x04\x00\x00\x00\x00" + m)            # PSBT_IN_SIGHASH_TYPE = 0
+        crafted.append(b"\x01\x03\x04\x01\x00\x00\x00" + m)            # = SIGHASH_ALL (control)
+    crafted.append(b"\x01\x03\x04\x00\x00\x00\x00\x00")
+    crafted.append(b"\x01\x04\x00\x00")                                # empty redeem script record
+    norm_lines = []
+    seen = set()
+    for m in maps_in[:ctx.n(700, 6000)] + crafted:
+        if m in seen:
+            continue
+        seen.add(m)
+        out, v = psbtin_reserialize(m)
+        if out is None:
+            ctx.count("psbtin.typed", "refused")
+            continue
+        try:
+            missing = [r for r in records_of(m) if r not in records_of(out)]
+        except Exception:  # noqa: BLE001
+            missing = []
+        keys = classify_dropped(missing, m) if missing else [None]
+        w = {"b": m.hex()}
+        ok, detail = _o_psbtin_keeps_pairs(w)
+        # one stream per finding key, so that the per-stream cap on recorded findings cannot hide a key
+        ctx.oracle("psbtin.keeps_pairs" + ("" if ok or not keys[0] else ":" + keys[0]), ok, detail, key=keys[0],
+                   witness={"oracle": "psbtin.keeps_pairs", "witness": w})
+        ctx.count("psbtin.typed", "kept" if ok else "dropped:" + str(keys[0]))
+        if ok:
+            norm_lines.append(f"psbtmap.norm o {hx(m)}")
+    ctx.stream("psbtmap.norm", norm_lines)
